@@ -4,13 +4,14 @@
 history categories (from seeded/NOTES.json, keyed <ID>/<n>):
   no note                        -> caught by the check as it stood when the change arrived
   note starting 'not pursued'    -> outside the property's domain; not caught, reason given
+  note starting 'open:'          -> missed, and the check was not strengthened yet (says what the change needs)
   any other note                 -> missed / mis-reported at first, caught after the strengthening the note describes
 A change whose own check stays quiet but that meta.json records as `also_caught_by` a neighbouring check counts as cross-property.
 """
 import json, glob, os, re, sys
 H = os.path.dirname(os.path.dirname(os.path.abspath(__file__)))
 notes = json.load(open(f"{H}/seeded/NOTES.json"))
-rows, tally = [], {"asis": 0, "strengthened": 0, "cross": 0, "notpursued": 0, "MISSED": 0}
+rows, tally = [], {"asis": 0, "strengthened": 0, "cross": 0, "notpursued": 0, "open": 0, "MISSED": 0}
 for p in sorted(glob.glob(f"{H}/seeded/*/*/meta.json"), key=lambda p: (p.split('/')[-3], int(p.split('/')[-2]))):
     pid, n = p.split('/')[-3], p.split('/')[-2]
     m = json.load(open(p)); v = m["verified"]
@@ -20,10 +21,13 @@ for p in sorted(glob.glob(f"{H}/seeded/*/*/meta.json"), key=lambda p: (p.split('
     extra = v.get("also_caught_by")
     if own:
         caught = ", ".join(subs) or "caught"
-        tally["strengthened" if note else "asis"] += 1
+        tally["strengthened" if note and not note.startswith("open:") else "asis"] += 1
     elif extra:
         caught = "not by " + pid + "; " + extra.split(" (")[0]
         tally["cross"] += 1
+    elif note and note.startswith("open:"):
+        caught = "NOT CAUGHT (open)"
+        tally["open"] += 1
     elif note and note.startswith("not pursued"):
         caught = "not caught (outside the domain)"
         tally["notpursued"] += 1
